@@ -119,7 +119,7 @@ def gen_cases(tier, seed):
             cases.append(dict(kind="rollout_helper", end=k,
                               length=int(rng.integers(1, 9)),
                               seed=int(rng.integers(1 << 20)), cost=1))
-        for sched in ("uts", "smt", "amt", "amt_rr"):
+        for sched in ("uts", "smt", "smt", "amt", "amt_rr"):
             for base in (("td3", "sac") if sched == "uts" else ("ddpg", "td3")):
                 cases.append(dict(
                     kind="sched", sched=sched, base=base,
@@ -128,6 +128,10 @@ def gen_cases(tier, seed):
                     budget=int(rng.integers(35, 70)),
                     scripts=[make_script(rng, 3) for _ in range(5)],
                     vector=bool(rng.integers(2)),
+                    # second-stage budget: a third of the total, or so small
+                    # that it ends inside the episode running when b1 is hit
+                    b2=int(rng.choice([-1, 0])) if base == "ddpg"
+                    else int(rng.integers(1, 4)),
                     seed=int(rng.integers(1 << 20)), cost=9))
     for i in range(12 * reps):
         cases.append(dict(kind="ducb", seed=int(rng.integers(1 << 30)), cost=0.5))
@@ -535,7 +539,8 @@ def run_sched(case):
                 seed=seed, exploring_starts=10, progress_bar=False)
             return r
         if sched == "smt":
-            b1 = budget * 2 // 3
+            b2 = case.get("b2", -1)
+            b1 = budget * 2 // 3 if b2 < 0 else budget - b2
             r, training_steps, _ = smt.train_smt(
                 task_set, train_st, buf, b1=b1, b2=budget - b1,
                 solved_threshold=1e9, unsolvable_threshold=-1e9,
